@@ -137,6 +137,10 @@ def cte_family(tier):
         for o in outers:
             if all(n in w for n in ('c1', 'c2', 'c3', 'c4') if n in o.replace(',', ' ').replace('.', ' ').split()):
                 out.append('WITH %s %s' % (', '.join('%s AS (%s)' % (n, defs[n]) for n in w), o))
+    # a FROM sub-query whose outer query holds another sub-query on another integration
+    out += ['SELECT * FROM (SELECT a, id FROM int1.t1) AS s WHERE s.a IN (SELECT c FROM int2.t2)',
+            'SELECT s.a FROM (SELECT a, id FROM int1.t1 WHERE a > 0) AS s WHERE s.id NOT IN (SELECT id FROM int2.t2) AND s.a > 1',
+            'SELECT s.a, (SELECT max(c) FROM int2.t2) AS m FROM (SELECT a, id FROM int1.t1) AS s']
     # a CTE named like a real table of ANOTHER integration: the bare name means the CTE, the integration-qualified name means the table
     out += ['WITH t2 AS (SELECT a, id FROM int1.t1 WHERE a > 1) SELECT id, a FROM t2 WHERE id IN (SELECT id FROM int2.t2)',
             'WITH t2 AS (SELECT a, id FROM int1.t1) SELECT t2.a, y.c FROM t2 JOIN int2.t2 AS y ON y.id = t2.id',
